@@ -84,9 +84,38 @@ def trivial(c):
     return all(p == sorted(p) for p in c.meta["perms"].values())
 
 
-def build(rng, ty, op, sizes, den):
+def zero_column(cs, k):
+    """the same table with no belief mass on value k of Y in any row (the mass goes to the uncertainty)"""
+    out = []
+    for b, u in cs:
+        b = list(b)
+        u = u + b[k]
+        b[k] = 0.0
+        out.append((b, u))
+    return out
+
+
+def build(rng, ty, op, sizes, den, r=0):
     nx, ny, nz = sizes.get("X"), sizes.get("Y"), sizes.get("Z")
     f = lambda cs: sum((flat_sx(c) for c in cs), [])
+    if r % 4 == 1 and op in ("mbr", "deduce", "inverse", "abduce_with", "merge"):
+        # a value of Y that no conditional supports (placed deterministically, so that every seed contains it): its
+        # marginal base rate is 0 and the bounds P(y|x)/a(y) are 0/0 there; wherever a renaming puts that value the
+        # result must only be renamed
+        k = rng.below(ny)
+        tb = lambda n: zero_column(table(rng, ty, n, ny, "grid"), k)
+        ay0 = G.grid_dist(rng, ny - 1, den, True)
+        ay0.insert(k, 0.0)
+        if op == "mbr":
+            return G.grid_dist(rng, nx, den, True) + f(tb(nx))
+        if op == "deduce":
+            w = G.grid_opinion(rng, nx, den, "part", positive=True)
+            return flat_op(w) + f(tb(nx))
+        if op == "inverse":
+            return f(tb(nx)) + G.grid_dist(rng, nx, den, True) + ay0
+        if op == "abduce_with":
+            return flat_sx(G.grid_simplex(rng, ny, den)) + f(tb(nx)) + G.grid_dist(rng, nx, den, True) + ay0
+        return f(tb(nx)) + f(tb(nz)) + G.grid_dist(rng, nx, 8, True) + G.grid_dist(rng, nz, 8, True) + G.grid_dist(rng, ny, 8, True)
     if op in ("proj2", "umax2", "fuse2", "proj3", "umax3", "fuse3"):
         n = nx * nz * (ny if op.endswith("3") else 1)
         w = G.grid_opinion(rng, n, den)
@@ -181,10 +210,10 @@ def gen(rng, tier):
     for ty in ("f64", "f32"):
         for op, shs in shapes.items():
             for sizes in shs:
-                for r in range(reps if op != "merge" else max(1, reps // 3)):
+                for r in range(reps if op != "merge" else max(2, reps // 3)):
                     den = rng.choice([8, 16, 64])
                     for opk in (range(4) if op in ("fuse", "fuse2", "fuse3") else [0]):
-                        nums = build(rng, ty, op, sizes, den)
+                        nums = build(rng, ty, op, sizes, den, r)
                         gid += 1
                         ident = {d: list(range(n)) for d, n in sizes.items()}
                         out.append(mkcase(rng, ty, op, sizes, nums, opk, ident, gid, 0))
